@@ -3,8 +3,10 @@
 (* Consistency of the modules with each other: the routing and level       *)
 (* tables that LogSystem.tla hard-codes for its two configurations are the *)
 (* ones Routing.tla and Levels.tla derive for those configurations.        *)
-(*   A: logger ha lists T1 (= aa_x); no root                               *)
-(*   B: logger ha lists bb_*, logger hb lists T1, a root is configured     *)
+(*   A: logger ha lists aa_* (so T1 = aa_x is served through a wildcard);  *)
+(*      no root                                                            *)
+(*   B: logger ha lists bb_* and still aa_*, logger hb lists T1 literally  *)
+(*      (the more specific match wins), a root is configured               *)
 (* with the tags T1 = aa_x, T2 = bb_y, T3 = bb_z.  Each configured logger  *)
 (* has two references: one without level, one with lower bound TOP.        *)
 (***************************************************************************)
@@ -17,11 +19,12 @@ T2 == [lead |-> FALSE, segs |-> <<"bb", "y">>]
 T3 == [lead |-> FALSE, segs |-> <<"bb", "z">>]
 LitP(t) == [kind |-> "lit", lead |-> t.lead, segs |-> t.segs]
 WildBB == [kind |-> "wild", lead |-> FALSE, segs |-> <<"bb">>]
+WildAA == [kind |-> "wild", lead |-> FALSE, segs |-> <<"aa">>]
 
 RA == INSTANCE Routing WITH Alpha <- {"aa", "bb", "x", "y", "z"}, MaxSeg <- 2, MaxLoggers <- 2, MaxPats <- 3,
-                            pats <- [l \in 1..2 |-> IF l = 1 THEN {LitP(T1)} ELSE {}], root <- "none", empties <- {}
+                            pats <- [l \in 1..2 |-> IF l = 1 THEN {WildAA} ELSE {}], root <- "none", empties <- {}
 RB == INSTANCE Routing WITH Alpha <- {"aa", "bb", "x", "y", "z"}, MaxSeg <- 2, MaxLoggers <- 2, MaxPats <- 3,
-                            pats <- [l \in 1..2 |-> IF l = 1 THEN {WildBB} ELSE {LitP(T1)}], root <- "plain", empties <- {}
+                            pats <- [l \in 1..2 |-> IF l = 1 THEN {WildBB, WildAA} ELSE {LitP(T1)}], root <- "plain", empties <- {}
 
 LS == INSTANCE LogSystem WITH MaxLen <- 0, Ops <- {}, phase <- "fresh", cfg <- "-", tags <- {}, handles <- {},
                               hooks <- {}, props <- "-", hist <- <<>>
